@@ -7744,6 +7744,23 @@ class SFTPServer:
 
         return os.stat(_to_local_path(self.map_path(path)))
 
+    def _check_link_move(self, oldpath: _LocalPath,
+                         newpath: _LocalPath) -> None:
+        """Make sure a moved relative symlink stays inside the chroot"""
+
+        if self._chroot and os.path.islink(oldpath):
+            target = os.readlink(oldpath)
+
+            if not os.path.isabs(target):
+                newdir = os.path.realpath(os.path.dirname(newpath))
+                realpath = os.path.realpath(os.path.join(newdir, target))
+
+                try:
+                    self.reverse_map_path(_from_local_path(realpath))
+                except SFTPNoSuchFile:
+                    raise SFTPPermissionDenied('Symbolic link would point '
+                                               'outside of chroot') from None
+
     def rename(self, oldpath: bytes, newpath: bytes) -> MaybeAwait[None]:
         """Rename a file, directory, or link
 
@@ -7772,6 +7789,8 @@ class SFTPServer:
 
         if os.path.exists(newpath):
             raise SFTPFileAlreadyExists('File already exists')
+
+        self._check_link_move(oldpath, newpath)
 
         os.rename(oldpath, newpath)
         return None
@@ -7886,6 +7905,8 @@ class SFTPServer:
 
         oldpath = _to_local_path(self.map_path(oldpath))
         newpath = _to_local_path(self.map_path(newpath))
+
+        self._check_link_move(oldpath, newpath)
 
         os.replace(oldpath, newpath)
         return None
